@@ -27,10 +27,12 @@ import (
 // ---------------------------------------------------------------- trees
 
 type tnode struct {
-	name  string
-	isDir bool
-	kids  []*tnode
-	file  *diskFile
+	name     string
+	isDir    bool
+	kids     []*tnode
+	file     *diskFile
+	linkTo   string // alias: the absolute path it points to (the node's file describes the target's bytes)
+	hasLinks bool   // (root) the tree contains aliases
 }
 
 var treeNamePool = []string{"a", "a.txt", "a-b", "a b", "A", "B", "a0", "ab", "b", "Z", "z", "é", "x!", "x", "x.d", "0", "00", "_", "~",
@@ -144,6 +146,83 @@ func genTree(r *RNG, name string, depth, maxFan, maxSize int, forks bool, budget
 		t.kids = append(t.kids, &tnode{name: n, file: f})
 	}
 	return t
+}
+
+// addAliases puts aliases of files into folders of a stored tree: links made by the real Make Alias transaction
+// when every path component is ASCII (same name, other folder), fixture links otherwise / additionally (other
+// names, dot names, targets outside the tree).  In the model an alias is a file holding the target's bytes, with
+// the target's modification time and no side files of its own.
+func addAliases(c *Case, ts *TS, cc *hotline.ClientConn, tree *tnode, parent string, pathItems [][]byte) {
+	r := c.R
+	type at struct {
+		n     *tnode
+		dir   string
+		comps [][]byte
+	}
+	var dirs, files []at
+	var rec func(t *tnode, dir string, comps [][]byte)
+	rec = func(t *tnode, dir string, comps [][]byte) {
+		p := filepath.Join(dir, t.name)
+		cs := append(append([][]byte{}, comps...), []byte(t.name))
+		if t.isDir {
+			dirs = append(dirs, at{t, p, cs})
+			for _, k := range t.kids {
+				rec(k, p, cs)
+			}
+		} else if t.linkTo == "" {
+			files = append(files, at{t, dir, comps})
+		}
+	}
+	rec(tree, parent, pathItems)
+	outside := &diskFile{Dir: filepath.Join(ts.Root, "outside-targets"), Name: fmt.Sprintf("o%d.dat", r.Intn(1000)), Data: genData(r, r.Intn(3000)), ModTime: randModTime(r)}
+	outside.write()
+	n := 1 + r.Intn(4)
+	for i := 0; i < n && len(files) > 0; i++ {
+		d := dirs[r.Intn(len(dirs))]
+		used := map[string]bool{}
+		for _, k := range d.n.kids {
+			used[k.name] = true
+		}
+		tf := files[r.Intn(len(files))]
+		target, tdata, tmod := filepath.Join(tf.dir, tf.n.name), tf.n.file.Data, tf.n.file.ModTime
+		name := tf.n.name
+		viaHandler := false
+		if r.Chance(25) {
+			target, tdata, tmod, name = outside.path(), outside.Data, outside.ModTime, outside.Name
+		} else if !used[name] && tf.dir != d.dir && r.Chance(60) {
+			ascii := true
+			for _, cp := range append(append([][]byte{}, tf.comps...), d.comps...) {
+				ascii = ascii && isASCII(string(cp))
+			}
+			viaHandler = ascii && isASCII(name)
+		}
+		if !viaHandler {
+			name = r.pickStr("alias-", "ln ", ".hidden-alias-", "z-") + name
+		}
+		if used[name] || len(name) > 200 {
+			continue
+		}
+		lp := filepath.Join(d.dir, name)
+		if viaHandler {
+			res, _, pan := ts.Call(cc, mkTran(hotline.TranMakeFileAlias, 9000+uint32(i), fld(hotline.FieldFileName, []byte(name)),
+				fld(hotline.FieldFilePath, encodePathItems(tf.comps)), fld(hotline.FieldFileNewPath, encodePathItems(d.comps))))
+			if pan != nil || len(res) != 1 || res[0].ErrorCode != [4]byte{} {
+				continue
+			}
+			c.Dist("folder-download/alias-by-handler")
+		} else {
+			if os.Symlink(target, lp) != nil {
+				continue
+			}
+			c.Dist("folder-download/alias-by-fixture")
+		}
+		if fi, err := os.Lstat(lp); err != nil || fi.Mode()&os.ModeSymlink == 0 {
+			continue
+		}
+		d.n.kids = append(d.n.kids, &tnode{name: name, linkTo: target,
+			file: &diskFile{Dir: d.dir, Name: name, ReqName: []byte(name), Data: tdata, ModTime: tmod}})
+		tree.hasLinks = true
+	}
 }
 
 // writeTree stores the tree below parentDir.
@@ -398,6 +477,9 @@ func runC10Download(c *Case) {
 			c.Dist("skip/write-failed")
 			continue
 		}
+		if r.Chance(50) {
+			addAliases(c, ts, cc, tree, parent, pathItems)
+		}
 		for _, mode := range []int{0, 1, r.Pick(2, 3)} {
 			id++
 			c10DownloadOnce(c, ts, set, cc, id, tree, pathItems, mode)
@@ -442,7 +524,16 @@ func c10DownloadForced(c *Case, ts *TS, set *transferSet, cc *hotline.ClientConn
 	copy(ref[:], refB)
 	count := int(binary.BigEndian.Uint16(cntB))
 	describe()
-	c.Corr("folder-count-and-size", fmt.Sprintf("%d %d", count, binary.BigEndian.Uint32(szB)), c.O.Ask("fcount "+tok), false)
+	if tree.hasLinks {
+		// CalcTotalSize adds the length of a link's target string for an alias (as coded; field 108 of a folder reply
+		// is not part of the property): only the count is compared for trees with aliases
+		m := strings.Fields(c.O.Ask("fcount " + tok))
+		if len(m) > 0 {
+			c.Corr("folder-count", fmt.Sprint(count), m[0], false)
+		}
+	} else {
+		c.Corr("folder-count-and-size", fmt.Sprintf("%d %d", count, binary.BigEndian.Uint32(szB)), c.O.Ask("fcount "+tok), false)
+	}
 
 	cl := &fdlClient{r: r, files: files, mode: mode, stopAt: -1, force: force}
 	if force == nil && nVisible > 0 && r.Chance(12) {
@@ -1446,7 +1537,7 @@ func runC10Regressions(c *Case) {
 
 func init() {
 	props["C10"] = func(x *Ctx) {
-		x.rule = "folder-download: 4 trees per case (depth ≤ 4, fan-out ≤ 5, ≤ 60 entries — 30% of the cases one tree with fan-out ≤ 7 and up to 150 entries —, empty folders, dot-files and dot-folders with visible entries below them, names chosen to separate per-directory byte order from whole-path order, file sizes 0..100 KiB (thorough 200 KiB), optional .info_/.rsrc_ side files, requested at the root or one level down), each downloaded under 3 action scripts (all send; mixed send/resume/next; resume-heavy or all next; resume offsets 0,1,size-1,size,random; 12% of the runs the client disconnects at an item header or after a file). folder-upload: 4 client trees per case streamed in client order into an empty, partly or largely pre-populated folder (existing folders, complete files with equal, other or EMPTY contents, partial files holding a prefix; 40% of the uncut uploads are streamed a second time), 45% cut inside a file item (before the size, inside the header, at header end ±1, mid data, last byte) followed by a second complete session. folder-roundtrip: upload into an empty folder, then download with all-send. long-names: folders named with 252, 253, 254 and 255 bytes (nested, with files named with up to 244 bytes = NAME_MAX minus the .incomplete suffix) uploaded and downloaded again, and stored files named with 252..255 bytes downloaded. non-trivial = a file item whose bytes were transferred (download) / a session that streamed at least one item (upload); distinct = distinct (path, size, action, fork combination) resp. (items, pre-population, cut)"
+		x.rule = "folder-download: 4 trees per case (depth ≤ 4, fan-out ≤ 5, ≤ 60 entries — 30% of the cases one tree with fan-out ≤ 7 and up to 150 entries —, empty folders, dot-files and dot-folders with visible entries below them, names chosen to separate per-directory byte order from whole-path order, file sizes 0..100 KiB (thorough 200 KiB), optional .info_/.rsrc_ side files, requested at the root or one level down; half of the trees additionally hold 1..4 aliases of files — made by the real Make Alias transaction or placed by the fixture, visible and dot-named, pointing inside or outside the tree — which must be sent as files carrying the target's bytes), each downloaded under 3 action scripts (all send; mixed send/resume/next; resume-heavy or all next; resume offsets 0,1,size-1,size,random; 12% of the runs the client disconnects at an item header or after a file). folder-upload: 4 client trees per case streamed in client order into an empty, partly or largely pre-populated folder (existing folders, complete files with equal, other or EMPTY contents, partial files holding a prefix; 40% of the uncut uploads are streamed a second time), 45% cut inside a file item (before the size, inside the header, at header end ±1, mid data, last byte) followed by a second complete session. folder-roundtrip: upload into an empty folder, then download with all-send. long-names: folders named with 252, 253, 254 and 255 bytes (nested, with files named with up to 244 bytes = NAME_MAX minus the .incomplete suffix) uploaded and downloaded again, and stored files named with 252..255 bytes downloaded. non-trivial = a file item whose bytes were transferred (download) / a session that streamed at least one item (upload); distinct = distinct (path, size, action, fork combination) resp. (items, pre-population, cut)"
 		x.assume = []string{
 			"root folder names are visible (no leading dot); names ending in .incomplete or starting with .info_/.rsrc_ are not generated (the on-disk naming scheme cannot tell them from partial/side files)",
 			"resume of a file with a stored resource fork, and a resource fork without an information fork, are compared with the model as coded (DESIGN §7 C08 'not covered': resume of the resource fork); the size-prefix clause is judged directly only without a stored resource fork or for 'send'",
